@@ -54,6 +54,7 @@ struct Frame {
 	std::string bytes;
 	int behav = -1;            // label of the reply these bytes were generated as (-1: unknown / altered in flight)
 	bool clean_resp = false;   // authentic, configured version, response with status 0
+	bool authentic = false;    // MAC verifies under the endpoint key and configured algorithm, configured PDU version and service
 	bool bad = false;          // malformed, unauthenticated, unknown tag, other version
 };
 
